@@ -42,7 +42,7 @@ func init() {
 		},
 		Batches: tiered(640, 9600),
 		Run:     runC10,
-		Timeout: timeoutFor(8*time.Minute, 40*time.Minute),
+		Timeout: timeoutFor(3*time.Minute, 40*time.Minute),
 	})
 }
 
